@@ -63,8 +63,28 @@ pub fn generate(seed: u64, idx: u64) -> Scenario {
         let t = gen::document(&mut rng, k);
         s.open(u, &t);
     }
-    let n = rng.range(1, 25);
+    let mut n = rng.range(1, 25);
     let mut typing: Vec<(String, Edit)> = vec![];
+    if rng.chance(50) {
+        // a program written from nothing; requests fired at half-typed states
+        let uri = uris[0].clone();
+        s.close(&uri);
+        s.open(&uri, "");
+        let size = rng.range(1, 3);
+        let program = gen::valid_program(&mut rng, size);
+        let mut cur = String::new();
+        for piece in gen::type_from_scratch(&mut rng, &program, 250) {
+            let e = gen::to_lsp_edit(&cur, cur.len()..cur.len(), piece);
+            gen::apply(&mut cur, &e);
+            s.change(&uri, vec![e]);
+            if rng.chance(120) {
+                let m = *rng.pick(&METHODS);
+                let (l, c) = if rng.chance(600) { crate::h::client::position_at(&cur, cur.len()) } else { gen::request_position(&mut rng, &cur) };
+                s.request(m, &uri, l, c);
+            }
+        }
+        n = rng.below(4);
+    }
     for _ in 0..n {
         let uri = if rng.chance(30) { "file:///w/never-opened.spl".to_string() } else { rng.pick(&uris).clone() };
         let text = s.text(&uri).cloned();
